@@ -42,9 +42,9 @@ def _defs(src):
 
 
 def parse_where(where):
-    """'a.py:1-5, 9-12' / 'a.py:3' / 'a.py' -> [(file, a, b)] (a, b None = whole file)"""
+    """'a.py:1-5, 9-12' / 'a.py:3; b.py:7-9' / 'a.py' -> [(file, a, b)] (a, b None = whole file)"""
     out, last = [], None
-    for part in where.split(","):
+    for part in re.split(r"[,;]", where):
         part = part.strip()
         m = re.match(r"^([^:\s]+\.py)(?::(\d+)(?:-(\d+))?)?", part)
         if m:
